@@ -58,6 +58,7 @@ Additional tables (all explicit; what is in no table is Unsupported, the caller 
            (`packet = Packet(env.now, self.size_dist(), self.packets_send, ..)` with holes for the arguments): afterwards the
            local is bound.  A listed draw inside an argument of an effect or of a request (`env.timeout(self.arrival_dist())`)
            is consumed before it
+  param_objects [name]    parameters of the generator that hold objects (`send_packet(self, packet)`): bound at entry
   sees     {effect constructor: [state attrs]}    the constructor additionally carries the CURRENT values of these state
            fields at the moment of the effect: what the callee could observe of this object while it is being called
            (`self.out.put(packet)` while busy = 1 and byte_size already decremented)
@@ -105,7 +106,7 @@ class _RaiseMark(ast.stmt):
 
 class GenSpec(FnSpec):
     def __init__(self, path, cls, method, name, requests=(), callouts=(), raises=(), objects=(), sees=None, interrupt=None,
-                 binds=None, **kw):
+                 binds=None, param_objects=(), **kw):
         for bad in ("select", "stateops", "bindings", "guards", "aliases", "decorator", "ret"):
             if bad in kw:
                 raise ValueError(f"GenSpec: {bad} is not supported for generator bodies")
@@ -116,6 +117,7 @@ class GenSpec(FnSpec):
         self.objects = list(objects)
         self.sees = dict(sees or {})
         self.binds = dict(binds or {})
+        self.param_objects = list(param_objects)      # parameters of the generator that hold objects (bound at entry)
         self.interrupt = interrupt
 
 
@@ -532,6 +534,12 @@ class GenTr(FxTr):
         env = self.env0()
         for n, ty in sorted(self.frames[kpt].items()):
             env["vars"][("local", n)] = V(None, "obj") if ty == "obj" else V(f"fr_{n}", ty)
+        if kpt == 0:
+            params = [a.arg for a in self.f.args.args]
+            for n in self.spec.param_objects:
+                if n not in params or n not in self.spec.objects:
+                    raise Unsupported(f"{n} is listed as an object parameter but is not a parameter / listed object")
+                env["vars"][("local", n)] = V(None, "obj")
         if kpt != 0:
             y = _yield_of(self.point_node[kpt])
             if y is not None and y[0] is not None:
@@ -657,6 +665,9 @@ def gen_run_module(title, spec, state, record, prefix, effect_type, fx_cons, req
     out += [f"(* {title} *)", "(* by vlib/translate_gen.py: the generator body cut at its program points (0 = entry, then every yield /",
             "   listed call-out in source order); one definition per reachable point: state fields, effects in program order,",
             "   and what the process does next *)", ""]
+    if any(ty in ("mapQ", "mapZ") for _, ty in state):
+        out.append("(* d[k] = v on a dict modelled as a total function *)")
+        out.append("Definition gen_upd {V : Type} (f : Z -> V) (k : Z) (v : V) : Z -> V := fun x => if Z.eqb x k then v else f x.")
     if state:
         out.append(f"Record {record} := {{ " + "; ".join(f"{prefix}{a.lstrip('_')} : {COQ_TY[ty]}" for a, ty in state) + " }.")
 
